@@ -330,6 +330,12 @@ func (w *world) one(k kase, r *engine.Report) (string, string) {
 			m.Bundle = other.Bundle
 		case k.Mut == "sig-by-other-key":
 			m.BundleSignature = w.k2.Sign(m.Bundle)
+		case k.Mut == "sig-by-key-named-as-previous":
+			// the bundle names another key as the one this key replaces - and is signed by that one
+			info := w.info(k.Mode)
+			info.PreviousCertificatePublicKeyPkix = w.k2.Pkix
+			m.Bundle, _ = proto.Marshal(info)
+			m.BundleSignature = w.k2.Sign(m.Bundle)
 		}
 		// the genuine request is processed first (an ordinary poll): state kept
 		// across calls must not let the altered one ride on it
@@ -480,7 +486,7 @@ func (w *world) cases(c *engine.Ctx, emit func(kase)) {
 			emit(kase{Kind: "mutate", Mode: mode, Mut: fmt.Sprintf("reencode-overlong-length:%d", i), Seed: c.Seed})
 		}
 		emit(kase{Kind: "mutate", Mode: mode, Mut: "reencode-reverse:0", Seed: c.Seed})
-		for _, m := range []string{"swap-sig", "swap-bundle", "sig-by-other-key"} {
+		for _, m := range []string{"swap-sig", "swap-bundle", "sig-by-other-key", "sig-by-key-named-as-previous"} {
 			emit(kase{Kind: "mutate", Mode: mode, Mut: m, Seed: c.Seed})
 		}
 		for _, m := range []string{"no-cert-key", "cert-key-type-unspecified", "cert-key-type-x25519", "no-nonce", "no-enc-key", "enc-key-type-ed25519", "no-not-after", "cert-key-garbage", "cert-key-ecdsa", "no-bundle", "no-signature"} {
@@ -540,7 +546,7 @@ func init() {
 	engine.Register(&engine.CheckDef{
 		ID:    "C03",
 		Level: "exploration",
-		Rule: "through AuthorizeNode, FetchNodeCredentials in three enrollment modes (record, token, wrapper) and RotateNodeCredentials (the request embedded in an enrolled node's rotation envelope): window placements (NotBefore, NotAfter) relative to now from {-2L,-L-1ns,-L,-1ns,0,+1ns,+L,+L+1ns,+2L}^2 x skew pairs from {-1h,-5m,-1ns,0,1ns,5m,1h}^2 under a frozen and a ticking clock; every single-bit flip and every truncation of bundle and of signature, equivalent re-encodings of the bundle (neighbouring field records swapped, all reversed, non-minimal length varints), swapped signature/bundle, signature by another key; 11 missing-field / wrong-key-type variants; node-created requests used at {-1ns,0,1ns,L/2,L-1ns,L+1ns,2L} after creation, and created by a node whose local zone changes its UTC offset within the next day (forward and back); window placements again with the request's unsigned side fields filled with junk; " +
+		Rule: "through AuthorizeNode, FetchNodeCredentials in three enrollment modes (record, token, wrapper) and RotateNodeCredentials (the request embedded in an enrolled node's rotation envelope): window placements (NotBefore, NotAfter) relative to now from {-2L,-L-1ns,-L,-1ns,0,+1ns,+L,+L+1ns,+2L}^2 x skew pairs from {-1h,-5m,-1ns,0,1ns,5m,1h}^2 under a frozen and a ticking clock; every single-bit flip and every truncation of bundle and of signature, equivalent re-encodings of the bundle (neighbouring field records swapped, all reversed, non-minimal length varints), swapped signature/bundle, signature by another key (also one the bundle itself names as its previous key); 11 missing-field / wrong-key-type variants; node-created requests used at {-1ns,0,1ns,L/2,L-1ns,L+1ns,2L} after creation, and created by a node whose local zone changes its UTC offset within the next day (forward and back); window placements again with the request's unsigned side fields filled with junk; " +
 			"distinct_nontrivial counts cases (distinct by construction) except exact ties between now and a widened window end, on which the property is silent",
 		Assumptions: []string{"random multi-byte mutations are sampling and are not claimed; all single-bit flips and truncations are enumerated", "'processed past validation' is observed as any storage call or a success: validation itself is storage-free (embedded in a rotation: as a storage write or a success, the envelope being opened with a stored record first)", "exact ties are not judged"},
 		Shards:      func(c *engine.Ctx) int { return 16 },
